@@ -339,6 +339,29 @@ fn exercise(kind: &str, data: &[u8], ring: &Ring) -> Vec<String> {
         "all" => exercise_all(data, ring),
         "inner1" => exercise_inner(data, ring, false),
         "inner2" => exercise_inner(data, ring, true),
+        // what an application does with a message it does not know: peel every compression layer
+        // (`while m.is_compressed() { m = m.decompress()? }`), then read
+        "peel" => {
+            let mut log = Vec::new();
+            if let Ok(mut m) = Message::from_bytes(data) {
+                let mut levels = 0usize;
+                while m.is_compressed() && levels < 1_000_000 {
+                    match m.decompress() {
+                        Ok(n) => m = n,
+                        Err(_) => {
+                            log.push("decompress:err".into());
+                            return log;
+                        }
+                    }
+                    levels += 1;
+                }
+                log.push(format!("levels:{levels}"));
+                let mut sink = Vec::new();
+                let r = (&mut m).take(READ_CAP).read_to_end(&mut sink);
+                log.push(format!("read:{}", r.is_ok()));
+            }
+            log
+        }
         "selftest-panic" => panic!("selftest"),
         "selftest-overflow" => {
             #[inline(never)]
@@ -661,6 +684,15 @@ pub fn hostile_streams(ctx: &Ctx, rng: &mut ChaCha8Rng) -> Vec<(String, Vec<u8>,
             v.push(("inner1".into(), inner, format!("SEIPDv1[compression nested {d} deep (alg {alg})]")));
         }
     }
+    // ... peeled to the end by the caller, the way applications do, on the main thread and on a 2 MiB one
+    for &d in &[100usize, 1000, 3000, 10_000] {
+        let mut inner = literal(b"the end");
+        for _ in 0..d {
+            inner = compressed(0, &inner);
+        }
+        v.push(("peel".into(), inner.clone(), format!("uncompressed Compressed Data nested {d} deep, every layer peeled, then read")));
+        v.push(("peel@2m".into(), inner, format!("uncompressed Compressed Data nested {d} deep, every layer peeled, then read, on a 2 MiB thread")));
+    }
     // a compression bomb (64 MiB of zeros, twice compressed) and truncated / corrupt deflate streams
     let zeros = vec![0u8; 16 << 20];
     let bomb = compressed(1, &compressed(1, &literal(&zeros)));
@@ -864,6 +896,7 @@ pub fn run(ctx: &mut Ctx, _ring: &Ring) {
     for (i, res) in results {
         let (kind, data, what) = &cases[i];
         let site = match kind.as_str() {
+            "peel" | "peel@2m" => "Message::decompress repeated until the message is no longer compressed, then read_to_end",
             "all" | "all@2m" | "all+slow" => "every public parse entry point (PacketParser, Message, SignedPublicKey, SignedSecretKey, DetachedSignature, Dearmor, CleartextSignedMessage) + serialize/verify/decrypt",
             "inner1" => "Message::decrypt_with_session_key (SEIPD v1) -> inner packet stream",
             _ => "Message::decrypt_with_session_key (SEIPD v2) -> inner packet stream",
